@@ -17,6 +17,8 @@
 #include "crc.h"
 #include "oracle_crc.h"
 #include <sys/stat.h>
+#include <sys/mman.h>
+#include <unistd.h>
 #include <complex>
 #include <filesystem>
 #include "st_format.h"
@@ -279,15 +281,32 @@ static void run_sinks(const std::string &fmt_text, Results &r, const A &...a)
     });
     {
         // a FILE* whose error indicator is set from an earlier, unrelated operation (a read attempt on a write-only stream)
-        char *mbuf = nullptr;
-        size_t msize = 0;
-        FILE *mf = open_memstream(&mbuf, &msize);
-        if (!mf) _exit(2);
-        (void)fgetc(mf);
-        r.o[S_FILE_ERRFLAG] = vf::guard([&] { ST::printf(mf, f, a...); });
-        fclose(mf);
-        r.bytes[S_FILE_ERRFLAG].assign(mbuf, msize);
-        free(mbuf);
+        // (a write-only FILE over a memfd, one per process; a memstream does not latch the error)
+        static FILE *ef = nullptr;
+        static int efd = -1;
+        static pid_t owner = 0;
+        if (owner != getpid()) {
+            efd = memfd_create("c17-errflag", 0);
+            ef = efd >= 0 ? fdopen(efd, "w") : nullptr;
+            if (!ef) {
+                perror("c17: memfd");
+                _exit(2);
+            }
+            owner = getpid();
+        }
+        fflush(ef);
+        if (ftruncate(efd, 0) != 0 || fseek(ef, 0, SEEK_SET) != 0) _exit(2);
+        if (!ferror(ef)) (void)fgetc(ef);
+        if (!ferror(ef)) {
+            fprintf(stderr, "c17: could not set the error indicator\n");
+            _exit(2);
+        }
+        r.o[S_FILE_ERRFLAG] = vf::guard([&] { ST::printf(ef, f, a...); });
+        fflush(ef);
+        off_t len = lseek(efd, 0, SEEK_END);
+        std::string back((size_t)(len > 0 ? len : 0), '\0');
+        if (len > 0 && pread(efd, back.data(), (size_t)len, 0) != len) _exit(2);
+        r.bytes[S_FILE_ERRFLAG] = back;
     }
     {
         // streams that carry formatting state from earlier use: writef writes its bytes, not formatted fields
